@@ -117,6 +117,9 @@ func loadGo(repo string, conf GoConfig, overlay map[string][]byte) (*GoProg, err
 	}
 	if !noRoles {
 		p.applyRoles()
+		if !noOrient {
+			p.applyOrient()
+		}
 	}
 	return p, nil
 }
